@@ -281,3 +281,14 @@ def case_bodies(fn, subject: str):
                 out.append((n.lineno, key, n.body))
     out.sort(key=lambda t: t[0])
     return [(k, b) for _, k, b in out]
+
+
+def slice_bounds(e, defs=None):
+    """(lower, upper) expressions of a slice written as `a:b` or as `slice(a, b)` (possibly through a single-definition local)"""
+    if isinstance(e, ast.Name) and defs and e.id in defs:
+        e = defs[e.id]
+    if isinstance(e, ast.Slice) and e.step is None:
+        return e.lower, e.upper
+    if isinstance(e, ast.Call) and isinstance(e.func, ast.Name) and e.func.id == "slice" and len(e.args) == 2 and not e.keywords:
+        return e.args[0], e.args[1]
+    return None
